@@ -170,8 +170,8 @@ def run(ctx):
     samples.append({"event": next((e for e in ev0 if e["call"] == "invoked" and len(e["a"]) >= 2), ev0[0])})
 
     # ------------------------------------- binding self-test (never a verdict)
-    selftest = None
-    if True:
+    selftest = {"skipped": "the recorded trace itself was rejected; the self-test needs conforming events"}
+    if not res["bad"]:
         k = next((i for i, e in enumerate(ev0) if e["call"] == "invoked" and e["recvV"] and e["seen"] != "error"), None)
         if k is not None:
             mutated = [dict(e) for e in ev0[: k + 1]]
